@@ -104,7 +104,8 @@ Definition u_expand (e : uentry) : option uitem * list uentry :=
   let '(cur, ll, lr) := e in
   match cur with
   | UBoth l r =>
-    (u_get_next (tpL l) (tval l) (tval r) ll lr,
+    (* the prefix of the node that holds the entry; the left one if both do *)
+    (u_get_next (if is_some (tval l) then tpL l else tpR r) (tval l) (tval r) ll lr,
      u_extend_lpm ll lr (u_next_indices (tright l) (tright r)) ++
      u_extend_lpm ll lr (u_next_indices (tleft l) (tleft r)))
   | UFirstL l r => (u_get_next (tpL l) (tval l) None ll lr, u_extend_lpm ll lr (u_next_first_l l r))
@@ -124,7 +125,8 @@ Definition umitem := (pfx * option (N * L) * option (N * R))%type.
 Definition um_expand (cur : uidx) : option umitem * list uidx :=
   match cur with
   | UBoth l r =>
-    ((if is_some (tval l) || is_some (tval r) then Some (tpL l, idval l, idval r) else None),
+    ((if is_some (tval l) || is_some (tval r)
+      then Some ((if is_some (tval l) then tpL l else tpR r), idval l, idval r) else None),
      u_next_indices (tright l) (tright r) ++ u_next_indices (tleft l) (tleft r))
   | UFirstL l r =>
     ((if is_some (tval l) then Some (tpL l, idval l, None) else None), u_next_first_l l r)
